@@ -179,7 +179,7 @@ func init() {
 
 // ---- hostile mutations -------------------------------------------------------------------------------
 
-var hostileScalars = []string{"", "~", "null", "nan", ".nan", ".NaN", ".inf", "-.inf", "0x", "0x1G", "1e999", "-1e999", "0o17", "1_000", "y", "n", "yes", "<<", "!!binary", "=", "0", "-0", "-1", "1.5", "9223372036854775808", "-9223372036854775809", "99999999999999999999999999", "1e-999", "true", "false", "TRUE", "${{", "}}", "${{ }}", "${{ github. }}", "${{ '", "${{ a[ }}", "${{ ((((((((((((((((((((((((((((((((((((((((( }}", "${{ !!!!!!!!!!!!!!!!!!!!!!!!!!!!!!!!!!!!!!!!!!!!!!!!!!a }}", "${{ a.*.*.*.*.*.*.*.*[0][0][0][0] }}", "${{ format('{', 1) }}", "${{ format('{0', 1) }}", "${{ format('{99999999999999999999}', 1) }}", "${{ format('}}{{', 1) }}", "${{ fromJSON('{') }}", "${{ fromJSON('[[[[[[[[[[[[[[[[[[[[[[[[[[[[[[[[[[[[[[[[[[[[[[[[[[') }}", "${{ fromJSON('{\"a\":{\"a\":{\"a\":{\"a\":null}}}}').a.a.a.a.a }}", "${{ 0x }}", "${{ 1e }}", "${{ 1. }}", "${{ -  }}", "${{ 'a'.b.c['d'].* }}", "${{ github['event']['x'][0][''] }}", "${{ contains() }}", "${{ hashFiles() }}", "${{ toJSON(toJSON(toJSON(toJSON(github)))) }}", "\x00", "\x1b[31m", "a\nb", "a\rb", "\u2028", "\u0085", "\ufeff", "%!s(", " [x]", ": 1:1: ", "*", "&", "*x", "&x", "!", "|", ">", "@", "`", "?", "- ", ": ", "#", "[", "]", "{", "}", ",", "'", "\"", "\\", "%", "docker://", "./", "./.", "../..", "a@", "@b", "a/b@", "a/b/c/d/e@f", "./a@b", "./.github/workflows/", "0 0 * * *", "* * * *", "@yearly", "*/0 * * * *", "60 24 32 13 8", "a-b-c", "A B", "=x", "1abc", strings.Repeat("a", 300), strings.Repeat("${{ github.sha }}", 50), strings.Repeat("[", 200), strings.Repeat("'", 101)}
+var hostileScalars = []string{"", "~", "null", "nan", ".nan", ".NaN", ".inf", "-.inf", "0x", "0x1G", "1e999", "-1e999", "0o17", "1_000", "y", "n", "yes", "<<", "!!binary", "=", "0", "-0", "-1", "1.5", "9223372036854775808", "-9223372036854775809", "99999999999999999999999999", "1e-999", "true", "false", "TRUE", "${{", "}}", "${{ }}", "${{ github. }}", "${{ '", "${{ a[ }}", "${{ ((((((((((((((((((((((((((((((((((((((((( }}", "${{ !!!!!!!!!!!!!!!!!!!!!!!!!!!!!!!!!!!!!!!!!!!!!!!!!!a }}", "${{ a.*.*.*.*.*.*.*.*[0][0][0][0] }}", "${{ format('{', 1) }}", "${{ format('{0', 1) }}", "${{ format('{99999999999999999999}', 1) }}", "${{ format('}}{{', 1) }}", "${{ fromJSON('{') }}", "${{ fromJSON('[[[[[[[[[[[[[[[[[[[[[[[[[[[[[[[[[[[[[[[[[[[[[[[[[[') }}", "${{ fromJSON('{\"a\":{\"a\":{\"a\":{\"a\":null}}}}').a.a.a.a.a }}", "${{ 0x }}", "${{ 1e }}", "${{ 1. }}", "${{ -  }}", "${{ 'a'.b.c['d'].* }}", "${{ github['event']['x'][0][''] }}", "${{ contains() }}", "${{ hashFiles() }}", "${{ toJSON(toJSON(toJSON(toJSON(github)))) }}", "\x00", "\x1b[31m", "a\nb", "a\rb", "\u2028", "\u0085", "\ufeff", "%!s(", " [x]", ": 1:1: ", "*", "&", "*x", "&x", "!", "|", ">", "@", "`", "?", "- ", ": ", "#", "[", "]", "{", "}", ",", "'", "\"", "\\", "%", "docker://", "./", "./.", "../..", "a@", "@b", "a/b@", "a/b/c/d/e@f", "./a@b", "./.github/workflows/", "0 0 * * *", "* * * *", "@yearly", "*/0 * * * *", "60 24 32 13 8", "a-b-c", "A B", "=x", "1abc", "echo ::set-output name=a::b", "echo ::Set-Output name=a::b", "::SAVE-STATE name=a::b", "::set-env name=A::b", "::SET-ENV name=A::b", "::add-path::/x", "::ADD-PATH::/x", "BASH", "Python", "PWSH {0}", "Ubuntu-Latest", "WINDOWS-2022", "SELF-HOSTED", "PUSH", "Pull_Request", "READ-ALL", "Write", "DOCKER://a:b", "Actions/Checkout@V4", "NODE20", "Composite", "Inherit", "STRING", "Boolean", "CHOICE", strings.Repeat("a", 300), strings.Repeat("${{ github.sha }}", 50), strings.Repeat("[", 200), strings.Repeat("'", 101)}
 
 var hostileTags = []string{"!!float", "!!int", "!!bool", "!!null", "!!str", "!!binary", "!!map", "!!seq", "!foo", "!", "!!timestamp", "!!merge", "!!set", "!!omap"}
 
@@ -317,6 +317,27 @@ func hostileMutate(t *rapid.T, root *ye.Node, n int) []string {
 				s.parent.Vals = append(s.parent.Vals, s.parent.Vals[s.idx].Clone())
 			}
 			kinds = append(kinds, "entry-duplicated")
+		case 4: // flip the letter case of an existing scalar (keywords, names and values the code matches)
+			if !s.isKey && s.parent.Vals[s.idx].Kind == ye.Scalar && s.parent.Vals[s.idx].Raw == "" {
+				v := s.parent.Vals[s.idx]
+				switch rapid.IntRange(0, 2).Draw(t, "flip") {
+				case 0:
+					v.Val = strings.ToUpper(v.Val)
+				case 1:
+					v.Val = strings.Title(v.Val)
+				default:
+					var b strings.Builder
+					for i, r := range v.Val {
+						if i%2 == 0 {
+							b.WriteString(strings.ToUpper(string(r)))
+						} else {
+							b.WriteRune(r)
+						}
+					}
+					v.Val = b.String()
+				}
+				kinds = append(kinds, "letter-case-flipped")
+			}
 		case 3: // anchor + alias pair
 			if !s.isKey && s.parent.Vals[s.idx].Kind == ye.Scalar && s.parent.Vals[s.idx].Raw == "" {
 				v := s.parent.Vals[s.idx]
@@ -420,6 +441,9 @@ func TestC01(t *testing.T) {
 		r.Check(t, "workflow-tree-mutations", hx.N(2500, 40000), func(rt *rapid.T) {
 			g := &wf.G{T: rt, Rare: rapid.Bool().Draw(rt, "rare")}
 			w := g.Workflow()
+			if rapid.Bool().Draw(rt, "shufflekeys") {
+				g.ShuffleKeys(w.Root)
+			}
 			kinds := hostileMutate(rt, w.Root, rapid.IntRange(1, 6).Draw(rt, "nmut"))
 			b := []byte(ye.Emit(w.Root, g.Layout()))
 			if rapid.IntRange(0, 4).Draw(rt, "bytes") == 0 {
